@@ -473,6 +473,18 @@ class C15(Prop):
                         alt = triples(tags.generic_tags(inp["interp"], abis=wrap(inp["abis"]), platforms=wrap(plats)))
                 if alt != got:
                     return False, f"{law[:-8]}_tags given a {name} instead of a list (platforms={plats!r}): " + first_diff(alt, got)
+            # … and the caller's own list objects are neither changed nor needed afterwards: the same lists, reused for the
+            # other generators after this one ran, give what fresh lists give
+            if law != "compatible_is_spec":
+                la, lp = list(inp["abis"]), list(plats)
+                with T.probes(probe):
+                    if law == "cpython_is_spec":
+                        triples(tags.cpython_tags(tuple(inp["ver"]), abis=la, platforms=lp))
+                    else:
+                        triples(tags.generic_tags(inp["interp"], abis=la, platforms=lp))
+                    if la != list(inp["abis"]) or lp != list(plats):
+                        return False, (f"{law[:-8]}_tags changed the caller's lists: abis {list(inp['abis'])!r} -> {la!r}, "
+                                       f"platforms {list(plats)!r} -> {lp!r}")
             return True, ""
         if law == "no_repeats":
             ver, abis, plats, interp = tuple(inp["ver"]), inp["abis"], inp["plats"], inp["interp"]
